@@ -91,15 +91,14 @@ Definition read_current_block (p : parser) : res (list Z * parser) :=
   else Err SB_EREAD.
 
 (** sb_binary_file_read_current_block_ex: copy for descriptors, view for memory.
-    The memory branch performs no length check: the view may extend beyond
-    the buffer, which the model reports as [OOB]. *)
-Definition site_block_view : Z := 1.
+    The memory branch checks that there is a current block and that its body
+    lies inside the buffer (SB_EREAD otherwise, as the descriptor route). *)
 Definition read_current_block_ex (p : parser) : res (list Z * bool * parser) :=
   match p_route p with
   | Fd => '(got, p1) <- read_current_block p ;; Ok (got, true, p1)
   | Mem =>
-    if (length (p_bytes p) <? p_body p + p_len p)%nat
-    then OOB site_block_view (Z.of_nat (p_body p + p_len p))
+    if negb (block_valid p) || (length (p_bytes p) <? p_body p + p_len p)%nat
+    then Err SB_EREAD
     else Ok (firstn (p_len p) (skipn (p_body p) (p_bytes p)), false, p)
   end.
 
